@@ -594,7 +594,7 @@ def case_batch(rng, kind, batch_rows=BATCH_ROWS, maint=False):
         # C03: the same queries after flushing everything and after merging everything
         regs = [op for op in h.ops if op.startswith("q0 ")]
         h.flush(list(h.mem))
-        h.ops += regs
+        h.ops += regs[:3]
         if len(h.file) > 1:
             h.merge(list(h.file))
             h.ops += regs[:2]
@@ -779,6 +779,9 @@ class C02(StoreSpec):
             "with forced ties, 1-40 rows split into 1-6 batches in random order, random flush/merge (fan-in 1-8, memory or file parts) "
             "between batches, queries in all three orders over full and partial ranges; `meta`: the same multiset under two histories; "
             "`tie`: equal (series, ts, version) with different values; `tie1`: one batch with a key repeated at the same greatest version, queried while it is the only part; `big`: one series of maxBlockLength-1..+2 rows plus overlapping parts; "
+            "`bat`: series of 1-2 PullBatch batches (4096 rows) +-3 rows with keys re-written in other parts exactly at the rows around every batch boundary, both directions and shifted ranges; "
+            "`many`: 3000/4500 series in one part, newest copy of an early series' point there, older copy elsewhere, query after the part's other timestamps; "
+            "`nodes`: 1-4 node answers (<=4 series x <=4 shared timestamps, version ties) merged by the liaison iterator stack; every query is read through Pull and PullBatch; "
             "non-trivial = history in which some key was written more than once")
 
     def cases(self, rng, n):
